@@ -36,7 +36,8 @@ CatChoiceSeq == <<
   [catKind |-> "num",  cats |-> <<Leaf("n:1"), Leaf("n:2.5"), Leaf("n:0"), Leaf("n:-3")>>],
   [catKind |-> "date", cats |-> <<Leaf("d:1899-12-31"), Leaf("d:1900-01-01"), Leaf("d:1900-02-28"), Leaf("d:1900-03-01"), Leaf("d:2024-12-31")>>],
   [catKind |-> "str",  cats |-> <<Leaf("s:plain:1"), Leaf("s:empty:0")>>],
-  [catKind |-> "str",  cats |-> <<Node("s:plain:10", <<Leaf("s:empty:0"), Leaf("s:plain:12")>>)>>] >>
+  [catKind |-> "str",  cats |-> <<Node("s:plain:10", <<Leaf("s:empty:0"), Leaf("s:plain:12")>>)>>],
+  [catKind |-> "num",  cats |-> <<Leaf("n:0"), Leaf("n:1"), Leaf("n:2.5")>>] >>      \* the FIRST label is a zero (the kind of the axis is read off the first label)
 LenSeqSeq == << <<>>, <<0>>, <<2>>, <<1, 3>>, <<3, 0, 2>>, <<2, 2, 2>>, <<1>>, <<0, 0>>, <<1, 1, 1, 1, 1, 1, 1, 1, 1, 1, 1, 2>> >>     \* the last: twelve series
 
 \* ---- the shape table: every history refers to shapes by index
